@@ -396,8 +396,10 @@ class LSMTree(Entity):
                     return None
                 return value
 
-        # Check each level, L0 first (most recent)
-        for level in self._levels:
+        # Check each level, L0 first (most recent). Iterate over a snapshot of the
+        # SSTable lists: this generator yields while reading, and a compaction that
+        # finishes in between replaces SSTables in the live lists.
+        for level in [list(level) for level in self._levels]:
             # L0: check all SSTables (may have overlapping key ranges)
             for sstable in reversed(level):
                 self._total_sstables_checked += 1
@@ -481,8 +483,10 @@ class LSMTree(Entity):
                 if start_key <= k < end_key and k not in merged:
                     merged[k] = v
 
-        # Collect from SSTables (newer levels first)
-        for level in self._levels:
+        # Collect from SSTables (newer levels first). Iterate over a snapshot of the
+        # SSTable lists so a compaction finishing during a yield cannot make the
+        # scan skip SSTables.
+        for level in [list(level) for level in self._levels]:
             for sstable in reversed(level):
                 page_reads = sstable.page_reads_for_scan(start_key, end_key)
                 if page_reads > 0:
